@@ -53,6 +53,14 @@ CHECKS.update({
                     "MonChunk.tla re-checks Partition on what the real code returned. thorough = all 1<=T<=N<=1024.",
             "ref": "6/C09", "note": "pure function: the whole stated domain is enumerated in the thorough tier; quick uses N<=96 plus the bucket sizes in use",
             "technique": "TLA+ transcription model-checked exhaustively (TLC) + table replay into the real function + TLC re-check of its outputs"},
+    "C16": {"text": "Scrape / ScrapeRet are actions of Core.tla enabled at any point (incl. while the stream is closed, while a delivery is "
+                    "held by the consumer, mid-rebalance); the C16 monitor recomputes from the observable history what every gauge and "
+                    "counter must show (tracked position and its snapshot, lag = max(0, high - seq) against the high seqnos handed to that "
+                    "scrape, total lag, accepted mutations/deletions/expirations, member / group size / range of the session, active "
+                    "streams, completed rebalances); TLC checks Core against it exhaustively and on the metrics the REAL "
+                    "metric.NewMetricCollector(...).Collect returned in TLC-generated schedules.",
+            "ref": "6/C16", "note": _A + "; the HTTP layer (/metrics route, /states/offset) is not exercised, the collector is called directly",
+            "technique": _T},
     "C18": {"text": "Version.tla transcribes Higher/Equal/Lower, the parser over field structures and the three gates; TLC checks "
                     "trichotomy, antisymmetry, transitivity (all triples), equality with the lexicographic order, gate monotonicity and "
                     "parse(render(t)) = t for every pair of the grid around the gates; every pair goes through the real methods and "
